@@ -69,7 +69,7 @@ type hmap struct {
 type hchan struct {
 	buf    []value
 	closed bool
-	never  bool // a channel nobody ever sends on (timers, Done of a live context)
+	never  bool   // a channel nobody ever sends on (timers, Done of a live context)
 	timer  bool   // created by time.After / NewTimer
 	cap    int    // sched mode: buffer capacity
 	vc     vclock // sched mode: happens-before clock
